@@ -5,29 +5,29 @@ import json, os, subprocess
 V = os.path.dirname(os.path.dirname(os.path.abspath(__file__)))
 props = [json.loads(l)["id"] for l in open(os.path.join(V, "properties.jsonl"))]
 
-TECH = "bounded symbolic execution of the real Go SSA of /repo (own executor, fork of go/ssa/interp) with z3 deciding every path's assertions; counterexamples replayed natively"
+TECH = "bounded symbolic execution of the real Go SSA of /repo (own executor, fork of go/ssa/interp) with an SMT solver (z3; z3-new and cvc5 on unknown) deciding every path's assertions within stated bounds; counterexamples replayed natively against the compiled real code"
 claimed = {
  "C01": ("5/C01", "One issuing step through the real GenerateArtifacts/BuildCertBody/Sign with key algorithms, signature algorithm, DN bytes and extension order drawn symbolically; the harness verifies the signature with the algorithm named by the emitted OID under the key parsed from the issuer certificate, compares DN bytes and key identifiers, and demands an error for a key-type mismatch. Hierarchies follow by induction over issuing steps. Imported keys: PKCS#8 EC keys as other tools write them (scalar shorter or longer than the curve size, all ten curves, scalar symbolic) are read as the key pair of that scalar.",
          "ideal signature scheme and collision-free hashes instead of real crypto; Database double"),
- "C02": ("5/C02", "On every certificate of the C01 harness the structure emitted through the DER model is compared with the RFC 5280 skeleton built by independent helpers; algorithm identifiers and the serial-number range (all values below the real snMax, all positive int64) are decided by the solver.",
+ "C02": ("5/C02", "On every certificate of the C01 harness the structure emitted through the DER model is compared with the RFC 5280 skeleton built by independent helpers; algorithm identifiers and the serial-number range (all values below the real snMax, all positive int64) are decided by the solver. The empty extension set is checked for the absence of the [3] element.",
          "encoding/asn1 leaf encoders are executed, not proved canonical; independent-parser acceptance and re-encoding stability are outside the claim"),
  "C03": ("5/C03", "Subject strings with symbolic value bytes run through the real ParseRDNSequence (incl. the interpreted regexp), optional profile validation and BuildCertBody; RDN count/order/type/value, serial and unique ids are asserted; freshness of the random serial is an existential solver query. The serial is additionally sent through the configuration text (reader stub that fills each v1 field according to its Go type) for 19 boundary values; the unique ids are compared in the encoded TBSCertificate (present/absent, empty included).",
          "skeleton-structured subjects (separator characters fixed by construction), first value 4 (quick) / 6 (thorough) symbolic bytes; YAML numbers only as a list of boundary values"),
- "C04": ("5/C04", "The real toTimeStruct with the real time.ParseInLocation / Date / AddDate code is executed with the day of month, the zone offset and the time of the run as solver variables (year and month concretised by forking) against an independent civil-calendar oracle; DER time type and the merge rule for validity are checked separately. Certificate/profile inheritance is run end to end (initCertificate, initProfile, Merge) for all 5 x 5 kinds of validity block.",
+ "C04": ("5/C04", "The real toTimeStruct with the real time.ParseInLocation / Date / AddDate code is executed with the day of month, the zone offset and the time of the run as solver variables (year and month concretised by forking) against an independent civil-calendar oracle; DER time type and the merge rule for validity are checked separately. Certificate/profile inheritance is run end to end (initCertificate, initProfile, Merge) for all 5 x 5 kinds of validity block. BuildCertBody is checked to carry any two instants (either order) into the certificate body.",
          "fixed-offset local zone instead of the tz database; divisions by constants lowered by interval analysis; durations with listed year/month counts"),
  "C05": ("5/C05", "Exhaustive symbolic run over the 15 x 9 keyAlgorithm x signatureAlgorithm configurations against RFC reference tables.",
          "key generation stubs record the curve / size they were asked for"),
  "C06": ("5/C06", "The real pipeline behind the YAML front end (initCertificate, parseExtensions, commonExtensionHandler via emulated reflection, readRawString with the real base64 code, BuildCertBody, Sign) is executed with raw payload bytes and critical flags symbolic; order, OID, flag and value of every emitted extension are asserted. The raw values of the unique ids are checked in the encoded TBSCertificate.",
          "harness starts at the typed v1 structs (no YAML/JSON-schema); ideal signature scheme; fixed clock and serial"),
- "C07": ("5/C07", "Each structured extension's Builder and constructor are executed with symbolic content (flags, name bytes, octets, path length, OID arcs, qualifier members, key-id bytes) and the emitted value is compared byte for byte with a reference DER encoding written from RFC 5280/6960 (X.690 helpers independent of encoding/asn1).",
+ "C07": ("5/C07", "Each structured extension's Builder and constructor are executed with symbolic content (flags, name bytes, octets, path length, OID arcs, qualifier members, key-id bytes) and the emitted value is compared byte for byte with a reference DER encoding written from RFC 5280/6960 (X.690 helpers independent of encoding/asn1). Every variable-length member is also run at the DER length boundaries (125..129, 253..257, 300 bytes).",
          "content strings of 2 bytes, short lists; hashed key identifiers are part of the C01 harness; the pathLen=0 defect is a recorded known finding"),
  "C15": ("5/C15", "Fault enumeration executed symbolically through the real code: every write of an interrupted run on a three-tier hierarchy fails with each outcome class; error reporting, recovery by the next run (certificates, keys, chains, DNs) and the final no-op are asserted; mtimes are solver variables.",
          "in-memory file system double; sampled tear offsets; strictly increasing mtimes"),
- "C16": ("5/C16", "The admission encoder (raw TLV assembly plus emulated reflection in partialMarshallStruct) is executed level by level for every subset of optional members and every GeneralName kind, and through the v1 configuration layer, against a reference AdmissionSyntax encoder written from Common PKI v2.0. Lists of 1..3 profession infos with every member subset per element are converted and compared member by member.",
+ "C16": ("5/C16", "The admission encoder (raw TLV assembly plus emulated reflection in partialMarshallStruct) is executed level by level for every subset of optional members and every GeneralName kind, and through the v1 configuration layer, against a reference AdmissionSyntax encoder written from Common PKI v2.0. Lists of 1..3 profession infos with every member subset per element are converted and compared member by member. One member at a time is run at the DER length boundaries.",
          "compositional coverage of the tree, 2-byte ASCII strings"),
  "C12": ("5/C12", "History quantifier discharged by induction: one default-flags run from an arbitrary directory state (symbolic artifact/hash/timestamp facts plus abstract fresh/chained facts under stated environment assumptions) must re-establish the converged state, and the following run must plan nothing. In addition every concrete history of 2 (quick) / 3 (thorough) operations out of 12 on a real three-entity directory is executed through the real FsDb and compared with a run from scratch.",
          "assumptions A1-A3 about the environment; BulkUpdate effect summary; needsUpdate summarised"),
- "C13": ("5/C13", "Self-composition on CertificateContent.HashSum: two symbolic configurations that differ only in alias / profile name / run-relative instants must hash equal, and each of 24 single edits that change the generated certificate must change the hash; SHA-1 is an uninterpreted collision-free function of the JSON text produced by the json.Marshal model. The stored hash line round trip runs through the real export/import code. The engine's encoding/json model is pinned against host-produced texts for embedded structs (vhJsonModel).",
+ "C13": ("5/C13", "Self-composition on CertificateContent.HashSum: two symbolic configurations that differ only in alias / profile name / run-relative instants must hash equal, and each of 24 single edits that change the generated certificate must change the hash; SHA-1 is an uninterpreted collision-free function of the JSON text produced by the json.Marshal model. The stored hash line round trip runs through the real export/import code. The engine's encoding/json model is pinned against host-produced texts for embedded structs (vhJsonModel). Edits made in the profile are decided on the merged configuration.",
          "JSON model (cross-checked on concrete calls); two recorded known findings (relative validity edits, extension kinds with identical field layout)"),
  "C14": ("5/C14", "One regeneration step through the real GenerateArtifacts for an entity holding a key of any drawn type, a request without key, or nothing; key identity, SPKI, number of key generations and the verification of a child issued afterwards are asserted. Any number of regenerations follows by induction over the stored artifact. The same is run through the real FsDb and PEM reader with hand-assembled artifact files (text before the first / after the last block, key only, request only).",
          "ideal crypto; key-generation counter of the engine; byte-level PKCS#8 persistence for all key types is C17's subject"),
@@ -35,15 +35,15 @@ claimed = {
          "asn1.Unmarshal of symbolic bytes only as the inverse of an earlier Marshal of the same type (axiom); crypto/x509 interoperability and rejection of arbitrary invalid bytes are not decided (a list of nine invalid key blocks is)"),
  "C18": ("5/C18", "The real FsDb.Open (WalkDir, importCertConfigFile, IsConsistent) runs on an in-memory directory for every issuer graph, alias layout and collision pattern inside the bound; the suffix filter runs with symbolic letter case. Paths that differ only in letter case (directory, base name, suffix) are run for three alias modes.",
          "config.ParseConfig replaced by a flat-YAML reader feeding the real initCertificate; in-memory fs.FS double"),
- "C20": ("5/C20", "Panic-freedom is the engine's native question: every feasible path that reaches a Go panic in the interpreted real code is a violation. Dedicated harnesses cover the hash-line slicing on symbolic bytes, OID strings with over-long arcs in every position, zero-valued extensions, and every artifact-state x strategy combination of a two-level hierarchy through PlanBulkUpdate and BulkUpdate. Artifact files with unusable key blocks (nine payloads) on the leaf or the signing root are run through Open / PlanBulkUpdate / BulkUpdate for four flag sets.",
+ "C20": ("5/C20", "Panic-freedom is the engine's native question: every feasible path that reaches a Go panic in the interpreted real code is a violation. Dedicated harnesses cover the hash-line slicing on symbolic bytes, OID strings with over-long arcs in every position, zero-valued extensions, and every artifact-state x strategy combination of a two-level hierarchy through PlanBulkUpdate and BulkUpdate. Artifact files with unusable key blocks (nine payloads) on the leaf or the signing root are run through Open / PlanBulkUpdate / BulkUpdate for four flag sets. 39 incomplete extension contents the schema lets through are built and signed.",
          "yaml / jsonschema / asn1.Unmarshal / pem internals on hostile bytes are not executed"),
  "C19": ("5/C19", "Self-composition: the same configuration is generated with and without every subset of the six manipulations (symbolic values) and all fields are compared; the signature is verified over the manipulated TBS bytes. Hashed key identifiers under the key-bits manipulation are decided through the real GenerateArtifacts for a root and a subordinate.",
          "self-issued P-256 certificate with a given key; ideal signature scheme"),
  "C08": ("5/C08", "Merge is executed symbolically against the merge rule of the statement for every profile/certificate list inside the bound; inputs-unchanged frame check. The failure clause for content-less extensions is decided by the C06/C07 builder harnesses once present. A content-less profile entry with every optional/override combination runs through the real initProfile, Merge and the generator.",
          "extension doubles instead of the real v1 types; JSON equality via the json.Marshal model (cross-checked against the host encoder on concrete calls)"),
- "C09": ("5/C09", "Validate is executed symbolically against the three-valued oracle transcribed from the statement; attribute types, optional flags and allowOther are solver variables.",
+ "C09": ("5/C09", "Validate is executed symbolically against the three-valued oracle transcribed from the statement; attribute types, optional flags and allowOther are solver variables. Rejection is additionally decided at the planner (PlanBulkUpdate fails whatever the stored state and strategy).",
          "lists without repeated attribute types; custom-OID spelling of attributes; logging stubbed"),
- "C10": ("5/C10", "Two consecutive planner runs from an arbitrary forest state with symbolic timestamps and flags; the first run's effect on stored state is applied as a summary; the second plan must be empty. (Write set and CLI consent harnesses are added separately.) The write set is checked through the real FsDb on the directory double, and the y/N consent through the real cobra `sign` closure with a symbolic stdin answer.",
+ "C10": ("5/C10", "Two consecutive planner runs from an arbitrary forest state with symbolic timestamps and flags; the first run's effect on stored state is applied as a summary; the second plan must be empty. (Write set and CLI consent harnesses are added separately.) The write set is checked through the real FsDb on the directory double, and the y/N consent through the real cobra `sign` closure with a symbolic stdin answer. The no-op clause is also run on the real directory database for a three-tier chain, 10 triggers and 6 flag sets.",
          "effect summary of BulkUpdate; no future mtimes; no certificate expires between the runs; needsUpdate summarised as a pure callee"),
  "C11": ("5/C11", "needsUpdate is compared with the statement's decision table over all artifact/hash states with strategy and timestamps symbolic; PlanBulkUpdate is checked on all forests inside the bound for the exact change set, issuer-first order and change type. The same statement is decided on the real directory database (artifact file variants, hash line, edited configuration, four symbolic mtimes, strategy 0..31) and the flag mapping through the real `sign` closure for all 32 flag settings.",
          "Database double for the table and forest harnesses, the real FsDb on an in-memory directory for the file-level harness; time stubs; needsUpdate summarised inside PlanBulkUpdate"),
@@ -73,7 +73,7 @@ m = {
            "source_commits": [l.split()[0] for l in fixes],
            "add_only": True},
  "engines": [{"name": "gosym", "path": "engine", "serves_properties": sorted(claimed),
-              "kind_free_text": "bounded symbolic executor for Go SSA (fork of x/tools go/ssa/interp with SMT-term leaves, DFS by re-execution, pure-callee summaries) + z3 4.8.12; native replay of counterexamples"}],
+              "kind_free_text": "bounded symbolic executor for Go SSA (fork of x/tools go/ssa/interp with SMT-term leaves, DFS by re-execution, pure-callee summaries) + z3 4.8.12 (z3-new 5.1.0 and cvc5 1.0 as fallback on unknown); native replay of counterexamples"}],
  "checks": checks,
  "not_applicable": [{"property_id": p, "reason": "check not built yet in this round (engine and first properties only); planned per DESIGN.md section 5"} for p in props if p not in claimed],
  "notes": "see DESIGN.md; `fix:` commits in /repo: " + "; ".join(fixes),
